@@ -223,23 +223,14 @@ func (s *sut) check(ns string, labels [][2]string, port uint32, epTLS bool, dr s
 		imported = append(imported, &model.Service{Attributes: model.ServiceAttributes{Name: "svc", Namespace: n}})
 	}
 	view := model.VerifSelectAuthnPolicies(s.push, clientNs, imported)
-	var drc *config.Config
-	if dr != "nil" {
-		drc = &config.Config{
-			Meta: config.Meta{GroupVersionKind: gvk.DestinationRule, Name: "dr", Namespace: ns},
-			Spec: &networkingapi.DestinationRule{
-				Host:          "svc",
-				TrafficPolicy: &networkingapi.TrafficPolicy{Tls: &networkingapi.ClientTLSSettings{Mode: drEnum[dr]}},
-			},
-		}
-	}
+	drc, subset := buildDR(dr, ns)
 	ep := &model.IstioEndpoint{Namespace: ns, Labels: labelsMap(labels), EndpointPort: port}
 	if epTLS {
 		ep.TLSMode = model.IstioMutualTLSModeLabel
 	} else {
 		ep.TLSMode = model.DisabledTLSModeLabel
 	}
-	r := endpoints.VerifCheckMtlsEnabled(s.push, view, 80, drc, "", ep, waypoint)
+	r := endpoints.VerifCheckMtlsEnabled(s.push, view, 80, drc, subset, ep, waypoint)
 	be := s.push.BestEffortInferServiceMTLSMode(view, nil, &model.Service{Attributes: model.ServiceAttributes{Namespace: ns}}, &model.Port{Port: 80})
 	return fmt.Sprintf("%s BE=%s NS=%s V=%d", wire.B(r), modeTok(be), modeTok(view.GetNamespaceMutualTLSMode(ns)), s.versionIndex(view.GetVersion()))
 }
@@ -252,4 +243,60 @@ func (s *sut) scopedVersion(clientNs string, importedNs []string) string {
 		imported = append(imported, &model.Service{Attributes: model.ServiceAttributes{Name: "svc", Namespace: n}})
 	}
 	return model.VerifSelectAuthnPolicies(s.push, clientNs, imported).GetVersion()
+}
+
+func optTLS(tok string) *networkingapi.ClientTLSSettings {
+	if tok == "-" || tok == "nil" || tok == "" {
+		return nil
+	}
+	return &networkingapi.ClientTLSSettings{Mode: drEnum[tok]}
+}
+
+// tpolicy: <tls|-> and <p=M;p=nil|-> -> TrafficPolicy (nil when both are "-").
+func tpolicy(tls, ports string) *networkingapi.TrafficPolicy {
+	if tls == "-" && ports == "-" {
+		return nil
+	}
+	tp := &networkingapi.TrafficPolicy{Tls: optTLS(tls)}
+	if ports != "-" && ports != "" {
+		for _, e := range strings.Split(ports, ";") {
+			p, m, _ := strings.Cut(e, "=")
+			n, _ := strconv.ParseUint(p, 10, 32)
+			tp.PortLevelSettings = append(tp.PortLevelSettings, &networkingapi.TrafficPolicy_PortTrafficPolicy{
+				Port: &networkingapi.PortSelector{Number: uint32(n)}, Tls: optTLS(m),
+			})
+		}
+	}
+	return tp
+}
+
+// buildDR: the DestinationRule token of chk (see Driver.lean parseDR) -> config and selected subset.
+func buildDR(tok, ns string) (*config.Config, string) {
+	if tok == "nil" {
+		return nil, ""
+	}
+	dr := &networkingapi.DestinationRule{Host: "svc"}
+	subset := ""
+	if f := strings.Split(tok, "/"); len(f) == 4 {
+		dr.TrafficPolicy = tpolicy(f[0], f[1])
+		if f[2] != "-" {
+			for _, e := range strings.Split(f[2], "+") {
+				g := strings.Split(e, "~")
+				ss := &networkingapi.Subset{Name: g[0]}
+				if len(g) == 3 {
+					ss.TrafficPolicy = tpolicy(g[1], g[2])
+				}
+				dr.Subsets = append(dr.Subsets, ss)
+			}
+		}
+		if f[3] != "-" {
+			subset = f[3]
+		}
+	} else {
+		dr.TrafficPolicy = &networkingapi.TrafficPolicy{Tls: &networkingapi.ClientTLSSettings{Mode: drEnum[tok]}}
+	}
+	return &config.Config{
+		Meta: config.Meta{GroupVersionKind: gvk.DestinationRule, Name: "dr", Namespace: ns},
+		Spec: dr,
+	}, subset
 }
